@@ -2,6 +2,8 @@ import CwPlus.Base.Json
 import CwPlus.Model.Cw20
 import CwPlus.Model.Cw4Group
 import CwPlus.Model.Cw4Stake
+import CwPlus.Model.Ics20
+import CwPlus.Model.Cw3Flex
 /-!
 # The JSON messages the contracts send to other contracts — byte-level model
 
@@ -21,8 +23,8 @@ it, byte for byte, and what a receiver built with the same libraries reads back:
   `Option::None` is `null` (no `skip_serializing_if`), elements separated by `,`, `[]` when there is no diff.
 * `encodeTransfer` / `encodeTransferFrom` = `Cw20ExecuteMsg::Transfer { recipient, amount }` /
   `TransferFrom { owner, recipient, amount }` (`packages/cw20/src/msg.rs`; struct variants, snake_case):
-  `{"transfer":{"recipient":"…","amount":"…"}}`, `{"transfer_from":{"owner":"…","recipient":"…","amount":"…"}}`
-  (encoders only).
+  `{"transfer":{"recipient":"…","amount":"…"}}`, `{"transfer_from":{"owner":"…","recipient":"…","amount":"…"}}`;
+  `decodeTransfer` / `decodeTransferFrom` read them back (`from_json::<Cw20ExecuteMsg>` restricted to that variant).
 * `decodeReceive` / `decodeHook`: `from_json` for an enum with the variant `Receive(Cw20ReceiveMsg)` resp.
   `MemberChangedHook(MemberChangedHookMsg)` (`#[cw_serde]`: `deny_unknown_fields`, snake_case), restricted to that
   variant: `deserialize_enum` (`{`, variant identifier, `:`, value, `}`), the derived struct visitors (a repeated or
@@ -34,8 +36,8 @@ it, byte for byte, and what a receiver built with the same libraries reads back:
   is not modelled.  `DecodeErr` has no `unknown field` / `invalid number` constructors; `.unknownVariant` /
   `.invalidType` stand in (only ok/error is ever compared).
 
-`wireOfCw20`, `wireOfGroup`, `wireOfStake` map the output types of the existing contract models to these bytes;
-the models themselves are unchanged.
+`wireOfCw20`, `wireOfGroup`, `wireOfStake`, `wireOfIcs20`, `wireOfFlex` map the output types of the existing
+contract models to these bytes; the models themselves are unchanged.
 -/
 namespace CwPlus.MsgWire
 open CwPlus CwPlus.Json
@@ -421,6 +423,122 @@ def parseHookBody (bs : Bytes) : Except DecodeErr (List MemberDiff × Bytes) :=
 def decodeHook (bs : Bytes) : Except DecodeErr (List MemberDiff) :=
   decodeNewtypeVariant "member_changed_hook" parseHookBody bs
 
+/-! ## `Cw20ExecuteMsg::Transfer` / `TransferFrom` read back
+
+`from_json::<cw20::Cw20ExecuteMsg>` (`#[cw_serde]`: `deny_unknown_fields`, snake_case), restricted to one struct
+variant.  serde-json-wasm's `StructVariantAccess::struct_variant` is `deserialize_struct` (= `deserialize_map`: `{`,
+the derived field loop, `end_map`) followed by the `}` of the enum wrapper — the very code path of a newtype variant
+that holds a struct, so `decodeNewtypeVariant` and `parseObj` are reused.  A variant name other than the modelled one
+is `.unknownVariant` here (the real enum has eleven variants; the decoders answer "is it *this* call, and with which
+arguments"). -/
+
+/-- the arguments of `Cw20ExecuteMsg::Transfer` -/
+structure Transfer where
+  recipient : String
+  amount : Nat
+  deriving Repr, DecidableEq, Inhabited
+
+/-- the arguments of `Cw20ExecuteMsg::TransferFrom` -/
+structure TransferFrom where
+  owner : String
+  recipient : String
+  amount : Nat
+  deriving Repr, DecidableEq, Inhabited
+
+/-- the `Option`s of the derived visitor of the variant `Transfer` -/
+structure XferAcc where
+  recipient : Option String := none
+  amount : Option Nat := none
+  deriving Repr, DecidableEq
+
+def xferFieldValue (acc : XferAcc) (key : String) (bs : Bytes) : Except DecodeErr (XferAcc × Bytes) :=
+  if key = "recipient" then
+    if acc.recipient.isSome then .error .duplicateField
+    else match parseStringValue bs with
+      | .error e => .error e
+      | .ok (v, rest) => .ok ({ acc with recipient := some v }, rest)
+  else if key = "amount" then
+    if acc.amount.isSome then .error .duplicateField
+    else match parseAmountValue bs with
+      | .error e => .error e
+      | .ok (v, rest) => .ok ({ acc with amount := some v }, rest)
+  else .error .unknownVariant
+
+/-- the struct of the variant `Transfer`: `{`, the field loop, both fields required, `end_map` -/
+def parseTransferBody (bs : Bytes) : Except DecodeErr (Transfer × Bytes) :=
+  match skipWs bs with
+  | [] => .error .eof
+  | b :: r =>
+    if b = 0x7b then
+      match parseObj xferFieldValue 3 true {} r with
+      | .error e => .error e
+      | .ok (acc, rest) =>
+        match acc.recipient, acc.amount with
+        | some t, some a =>
+          match endMap rest with
+          | .error e => .error e
+          | .ok rest' => .ok (⟨t, a⟩, rest')
+        | _, _ => .error .missingField
+    else .error .invalidType
+
+/-- `from_json::<Cw20ExecuteMsg>`, restricted to `Transfer { recipient, amount }` -/
+def decodeTransfer (bs : Bytes) : Except DecodeErr Transfer := decodeNewtypeVariant "transfer" parseTransferBody bs
+
+/-- the `Option`s of the derived visitor of the variant `TransferFrom` -/
+structure XferFromAcc where
+  owner : Option String := none
+  recipient : Option String := none
+  amount : Option Nat := none
+  deriving Repr, DecidableEq
+
+def xferFromFieldValue (acc : XferFromAcc) (key : String) (bs : Bytes) : Except DecodeErr (XferFromAcc × Bytes) :=
+  if key = "owner" then
+    if acc.owner.isSome then .error .duplicateField
+    else match parseStringValue bs with
+      | .error e => .error e
+      | .ok (v, rest) => .ok ({ acc with owner := some v }, rest)
+  else if key = "recipient" then
+    if acc.recipient.isSome then .error .duplicateField
+    else match parseStringValue bs with
+      | .error e => .error e
+      | .ok (v, rest) => .ok ({ acc with recipient := some v }, rest)
+  else if key = "amount" then
+    if acc.amount.isSome then .error .duplicateField
+    else match parseAmountValue bs with
+      | .error e => .error e
+      | .ok (v, rest) => .ok ({ acc with amount := some v }, rest)
+  else .error .unknownVariant
+
+/-- the struct of the variant `TransferFrom` -/
+def parseTransferFromBody (bs : Bytes) : Except DecodeErr (TransferFrom × Bytes) :=
+  match skipWs bs with
+  | [] => .error .eof
+  | b :: r =>
+    if b = 0x7b then
+      match parseObj xferFromFieldValue 4 true {} r with
+      | .error e => .error e
+      | .ok (acc, rest) =>
+        match acc.owner, acc.recipient, acc.amount with
+        | some o, some t, some a =>
+          match endMap rest with
+          | .error e => .error e
+          | .ok rest' => .ok (⟨o, t, a⟩, rest')
+        | _, _, _ => .error .missingField
+    else .error .invalidType
+
+/-- `from_json::<Cw20ExecuteMsg>`, restricted to `TransferFrom { owner, recipient, amount }` -/
+def decodeTransferFrom (bs : Bytes) : Except DecodeErr TransferFrom :=
+  decodeNewtypeVariant "transfer_from" parseTransferFromBody bs
+
+/-- the struct of the variant `Transfer` as written: `{"recipient":…,"amount":…}` -/
+def encodeTransferBody (t : Transfer) : Bytes :=
+  0x7b :: (field keyRecipient (encStr t.recipient) ++ (0x2c :: (field keyAmount (amountTok t.amount) ++ [0x7d])))
+
+/-- the struct of the variant `TransferFrom` as written -/
+def encodeTransferFromBody (t : TransferFrom) : Bytes :=
+  0x7b :: (field keyOwner (encStr t.owner) ++ (0x2c :: (field keyRecipient (encStr t.recipient) ++
+    (0x2c :: (field keyAmount (amountTok t.amount) ++ [0x7d])))))
+
 /-! ## The output types of the contract models on the wire -/
 
 /-- cw20-base: the `Cw20ReceiveMsg` a notification carries.  The payload of the model is the text of the op line;
@@ -441,7 +559,24 @@ def wireOfStake : Cw4Stake.Out → Option Bytes
   | .cw20Transfer _ to amount => some (encodeTransfer to amount)
   | .hook _ key old new => some (encodeHook [⟨key, old, new⟩])
 
-/-! ## The outcome keys of the line protocol (`raw=`, `hookraw=`, `xferraw=`: hex of the real `msg` bytes) -/
+/-- cw20-ics20: `WasmMsg::Execute.msg` of the payout / refund sub-message built by `send_amount(amount, recipient)`
+(`contracts/cw20-ics20/src/ibc.rs`): `Amount::Cw20` → `Cw20ExecuteMsg::Transfer { recipient, amount }`;
+`Amount::Native` → a `BankMsg::Send`, which carries no JSON (`none`) -/
+def wireOfIcs20 (s : Ics20.SubMsg) : Option Bytes :=
+  match s.denom with
+  | .native _ => none
+  | .cw20 _ => some (encodeTransfer s.to s.amount)
+
+/-- cw3-flex-multisig: `WasmMsg::Execute.msg` of the deposit messages (`packages/cw3/src/deposit.rs`):
+`get_take_deposit_messages` → `Cw20ExecuteMsg::TransferFrom { owner: depositor, recipient: contract, amount }`,
+`get_return_deposit_message` → `Cw20ExecuteMsg::Transfer { recipient: depositor, amount }`; a native refund is a
+`BankMsg`, proposal messages and group hooks are not deposit messages (`none`) -/
+def wireOfFlex : Cw3Flex.Out → Option Bytes
+  | .cw20Transfer _ to amt => some (encodeTransfer to amt)
+  | .cw20TransferFrom _ owner to amt => some (encodeTransferFrom owner to amt)
+  | _ => none
+
+/-! ## The outcome keys of the line protocol (`raw=`, `hookraw=`, `xferraw=`, `subraw=`, `depraw=`: hex of the real `msg` bytes) -/
 
 /-- `raw=` of the cw20 scenario: the bytes of every emitted message, `;`-separated -/
 def rawOfCw20 (out : List Cw20.Out) : String := ";".intercalate (out.map fun o => toHex (wireOfCw20 o))
@@ -456,5 +591,17 @@ def hookRawOfStake (out : List Cw4Stake.Out) : String :=
 /-- `xferraw=` of the cw4-stake scenario: the bytes of the cw20 `Transfer` messages (payout of a claim) -/
 def xferRawOfStake (out : List Cw4Stake.Out) : String :=
   "+".intercalate (out.filterMap fun o => match o with | .cw20Transfer _ _ _ => (wireOfStake o).map toHex | _ => none)
+
+/-- `subraw=` of the cw20-ics20 scenarios: the bytes of every cw20 `Transfer` sub-message of the outcome (the harness
+joins them with `+`; the model's outcome has at most one sub-message); `-` when there is none (no sub-message, or a
+native payout) -/
+def subRawOfIcs20 (sub : Option Ics20.SubMsg) : String :=
+  match sub.bind wireOfIcs20 with
+  | none => "-"
+  | some bs => toHex bs
+
+/-- `depraw=` of the cw3-flex scenarios: the bytes of the cw20 deposit messages (`TransferFrom` on propose, `Transfer`
+on refund) among the messages the handler returned, in order, `+`-separated -/
+def depRawOfFlex (out : List Cw3Flex.Out) : String := "+".intercalate ((out.filterMap wireOfFlex).map toHex)
 
 end CwPlus.MsgWire
